@@ -22,7 +22,7 @@ build() {
   ( cmake --build /repo/_build -j${SEED_JOBS:-16} -- -k 0 2>&1 | grep -E "^FAILED|error:" | grep -v GeantVolumeMapper | head -5 ) | tee -a $LOG
 }
 demo() {  # $1 = label
-  WT=/repo B=/repo/_build bash $SEED/demo.sh > $SEED/demo.$1.out 2>&1
+  WT=/repo B=/repo/_build CELER_DISABLE_PARALLEL=1 CELER_LOG=error bash $SEED/demo.sh > $SEED/demo.$1.out 2>&1
   echo "demo ($1 tree): exit $?" | tee -a $LOG
 }
 echo "==== $(date -u) verify $ID at /repo $(git -C /repo rev-parse --short HEAD) verif $(git -C /verif rev-parse --short HEAD)" | tee -a $LOG
